@@ -1,0 +1,38 @@
+//go:build verif
+
+package mergeset
+
+import "sync/atomic"
+
+// Controls for the C10 check of /verif (series index exactness): the two timer-driven steps of
+// the table become calls the harness places between its own operations. Add-only, compiled only
+// with -tags verif; both functions run the code the timers run.
+//   - VerifPeriodicFlush is one tick of rawItemsFlusher: flushRawItems(false). The shards'
+//     lastFlushTime is set back first, so the "more than a second since the last flush"
+//     test of appendBlocksToFlush passes whatever the wall clock says. A non-final flush does
+//     not call the flush callback; it leaves needFlushCallbackCall set for the 10 s ticker of
+//     OpenTable. The function takes that flag over (resets it) and reports whether it was set,
+//     so the deferred call happens where the harness says (VerifFlushCallback), not when the
+//     ticker fires. It returns false if there was nothing to flush, or if the ticker got there
+//     first (then the callback has already run).
+//   - VerifFlushCallback is what the ticker does when the flag is set: tb.flushCallback().
+
+// VerifPeriodicFlush runs a non-final raw-items flush now; true = a flush-callback call is owed.
+func (tb *Table) VerifPeriodicFlush() bool {
+	for i := range tb.rawItems.shards {
+		ris := &tb.rawItems.shards[i]
+		ris.mu.Lock()
+		ris.lastFlushTime = 0
+		ris.mu.Unlock()
+	}
+	tb.flushRawItems(false)
+	tb.rawItemsPendingFlushesWG.Wait()
+	return atomic.CompareAndSwapUint32(&tb.needFlushCallbackCall, 1, 0)
+}
+
+// VerifFlushCallback runs the table's flush callback (the deferred call of the 10 s ticker).
+func (tb *Table) VerifFlushCallback() {
+	if tb.flushCallback != nil {
+		tb.flushCallback()
+	}
+}
